@@ -27,6 +27,8 @@ from wstate import w_init, w_summary, w_task, _W
 # ------------------------------------------------------------------ master side
 def main():
     pid, tier, seed, out = sys.argv[1], sys.argv[2], int(sys.argv[3]), sys.argv[4]
+    if tier == 'thorough':
+        os.environ.setdefault('VERIF_M_CROSS', '1')
     only = set(sys.argv[5].split(',')) if len(sys.argv) > 5 else None
     t_start = time.time()
     res = {'engine': 'M: mirsym (MIR->SMT symbolic executor, /verif/mirsym) over `rustc +nightly -Zunpretty=mir` of /repo; z3 %s' % z3.get_version_string(),
@@ -124,6 +126,8 @@ def drive2(pid, tier, seed, only, res, spec, rnd, prog, kinds, lmax, scripts, kn
         if sel:
             tasks = [t for t in tasks if t[0] in sel]
     rnd.shuffle(tasks)
+    if len(tasks) > 1500:
+        os.environ['VERIF_M_CROSS_MOD'] = str(max(1, len(tasks) // 150))
     t0 = time.time()
     for rs, dt in pool.map(w_task, tasks, chunksize=4):
         results += rs
@@ -155,6 +159,13 @@ def drive2(pid, tier, seed, only, res, spec, rnd, prog, kinds, lmax, scripts, kn
         else:
             o['status'] = 'inconclusive'
             res['inconclusive'].append('obligation %s on %s path %s: %s %s' % (r['label'], r['task'][1], r['task'][2], r['status'], r.get('detail', '')[:300]))
+    # second-solver cross-check (thorough tier)
+    cc = [r.get('cross') for r in results if r.get('cross')]
+    if cc:
+        res['cross_check'] = {'solver': '/usr/bin/z3 4.8.12 (SMT-LIB2 text of the same query)', 'queries': len(cc), 'agree': cc.count('agree'),
+                              'disagree': cc.count('disagree'), 'inconclusive': cc.count('inconclusive')}
+        if cc.count('disagree'):
+            res['inconclusive'].append('second solver disagrees on %d queries' % cc.count('disagree'))
     # vacuity guard: every witness group must be inhabited
     res['vacuity_witnesses'] = []
     for gname, g in sorted(wit.items()):
